@@ -7,7 +7,9 @@ pub mod c03;
 pub mod c04;
 pub mod c05;
 pub mod c06;
+pub mod c08;
 pub mod c09;
+pub mod labels;
 pub mod c10;
 pub mod c11;
 pub mod c12;
@@ -60,6 +62,7 @@ pub fn replay(id: &str, doc: &Value) -> i32 {
 
 pub fn internal(args: &[String]) -> i32 {
     match args[0].as_str() {
+        "--c08-child" => c08::child_main(args),
         "--c10-digest" => {
             println!("{}", c10::corpus_digest());
             0
